@@ -391,3 +391,58 @@ package proxy
 //@ func SetCookieStore$1(op *OAuthProxy) error
 //@   modifies everything
 //@   sink [C02] cookie_cipher_keyed_with_the_whole_cookie_secret: CreateMiscreantCookieCipher requires called(@DecodeString#1) && @DecodeString#1.1 == nil && arg(@DecodeString#1, 1) == cc.Secret && $arg0 == @DecodeString#1.0
+
+// ---- the functional options: each sets exactly its own field to exactly what it was given ---------------------
+// (proxy.New applies a growing option list to each upstream's OAuthProxy: a later option of the same kind must
+// replace what an earlier one set, never add to it.)
+//@ func SetValidators$1(op *OAuthProxy) error
+//@   modifies op.Validators
+//@   ensures [C11 C01 C06] validators_are_exactly_the_given_ones: result == nil && arrof(op.Validators) == arrof(validators) && len(op.Validators) == len(validators)
+
+//@ func SetProvider$1(op *OAuthProxy) error
+//@   modifies op.provider
+//@   ensures [C13 C01 C06] provider_is_exactly_the_given_one: result == nil && op.provider == provider
+
+//@ func SetUpstreamConfig$1(op *OAuthProxy) error
+//@   modifies op.upstreamConfig
+//@   ensures [C13 C01 C11] policy_is_exactly_the_given_one: result == nil && op.upstreamConfig == upstreamConfig
+
+//@ func SetProxyHandler$1(op *OAuthProxy) error
+//@   modifies op.handler
+//@   ensures [C13 C01] backend_is_exactly_the_given_one: result == nil && op.handler == handler
+
+// ---- C12: the shared HMAC key is the configured one, whole ----------------------------------------------------
+// "<hash>:<key>": on success the key handed to the signer is everything after the algorithm name and its
+// colon — never a part of it — signing goes to Gap-Signature over the documented header list.
+//@ func generateHmacAuth(signatureKey string) (hmacauth.HmacAuth, error)
+//@   modifies everything
+//@   let alg = arg(@DigestNameToCryptoHash#1, 0)
+//@   ensures [C12] key_is_everything_after_the_algorithm: result.1 == nil ==> called(@DigestNameToCryptoHash#1) && @DigestNameToCryptoHash#1.1 == nil && called(@NewHmacAuth#1) && !contains(alg, ":") && signatureKey == alg + ":" + arg(@NewHmacAuth#1, 1)
+//@   ensures [C12] signs_into_gap_signature_over_the_documented_headers: result.1 == nil ==> arg(@NewHmacAuth#1, 0) == @DigestNameToCryptoHash#1.0 && arg(@NewHmacAuth#1, 2) == "Gap-Signature" && arrof(arg(@NewHmacAuth#1, 3)) == arrof(SignatureHeaders) && len(arg(@NewHmacAuth#1, 3)) == len(SignatureHeaders) && result.0 == @NewHmacAuth#1
+
+// ---- C14: a valid route -------------------------------------------------------------------------------------
+// `from` / `to` are parsed as URLs; a value without a scheme separator gets the route's scheme put in front,
+// so that the host lands in URL.Host (url.Parse does not fail on a bare host: it files it under Path or
+// Scheme). Whatever has no "://" is given one; whatever has one is parsed as it stands.
+//@ func urlParse(scheme string, uri string) (*url.URL, error)
+//@   modifies nothing
+//@   fresh result.0
+//@   ensures [C14 C13] scheme_put_in_front_exactly_when_there_is_none: called(@Parse#1) && arg(@Parse#1, 0) == (contains(uri, "://") ? uri : scheme + "://" + uri) && result.0 == @Parse#1.0 && result.1 == @Parse#1.1
+
+// Both ends of a simple route go through urlParse with the route's scheme; either failing fails the route.
+//@ func simpleRoute(scheme string, routeConfig RouteConfig) (*SimpleRoute, error)
+//@   modifies nothing
+//@   fresh result.0
+//@   ensures [C14 C13] both_ends_parsed_with_the_routes_scheme: result.1 == nil ==> called(@urlParse#1) && called(@urlParse#2) && arg(@urlParse#1, 0) == scheme && arg(@urlParse#1, 1) == routeConfig.From && arg(@urlParse#2, 0) == scheme && arg(@urlParse#2, 1) == routeConfig.To && @urlParse#1.1 == nil && @urlParse#2.1 == nil && result.0 != nil && result.0.FromURL == @urlParse#1.0 && result.0.ToURL == @urlParse#2.0
+//@   ensures [C14] an_unparsable_end_fails_the_route: (called(@urlParse#1) && @urlParse#1.1 != nil) || (called(@urlParse#2) && @urlParse#2.1 != nil) ==> result.1 != nil && result.0 == nil
+
+// ---- C14: template variables come whole from the environment ---------------------------------------------------
+// Every SSO_CONFIG_<NAME>=<value> entry defines the template variable lower(<NAME>) with the whole <value>
+// (everything after the first "="); the last entry for a name wins. Entries are "NAME=value" (os.Environ).
+//@ func parseEnvironment(environ []string) map[string]string
+//@   requires each_entry_is_name_equals_value: forall i :: 0 <= i && i < len(environ) ==> contains(environ[i], "=")
+//@   modifies nothing
+//@   fresh result
+//@   ensures [C14] a_template_variable_carries_the_whole_value_of_its_environment_variable: result != nil && forall i :: 0 <= i && i < len(environ) && hasPrefix(environ[i], "SSO_CONFIG_") && (forall m :: i < m && m < len(environ) && hasPrefix(environ[m], "SSO_CONFIG_") ==> envKey(environ[m]) != envKey(environ[i])) ==> (envKey(environ[i]) in result) && result[envKey(environ[i])] == envValue(environ[i])
+//@   loop 1
+//@     invariant forall j :: 0 <= j && j < $i && hasPrefix(environ[j], "SSO_CONFIG_") && (forall m :: j < m && m < $i && hasPrefix(environ[m], "SSO_CONFIG_") ==> envKey(environ[m]) != envKey(environ[j])) ==> (envKey(environ[j]) in env) && env[envKey(environ[j])] == envValue(environ[j])
